@@ -32,11 +32,15 @@ type scCtor struct {
 
 // scCtors: constructor variant by case index (types without a capacity constructor always
 // use the default one).
+// scVariant rotates the eight variants over the shards (cases are dealt out by i mod nshards)
+// while every variant still meets every value of i/8 (the operation schedule).
+func scVariant(i int) int { return (i + i/16) % 8 }
+
 func scCtorFor(d *pmap.Descriptor, i int) scCtor {
 	if d.CtorCaps == nil {
 		return scCtor{}
 	}
-	switch i % 8 {
+	switch scVariant(i) {
 	case 4, 5:
 		return scCtor{1000, 1}
 	case 6:
@@ -373,7 +377,7 @@ func runSizeClass(c *vlib.Ctx, d *pmap.Descriptor, section string, i int, r *vli
 	c.SetAdd("sizeclass_constructors_covered", d.Name+h.ctor)
 	h.tableLen = pmap.TableLen(h.in)
 
-	big := ct.capacity == 0 && i%8 == 3
+	big := ct.capacity == 0 && scVariant(i) == 3
 	plan := scPlan(ct, big)
 	need := plan[len(plan)-1].size*2 + 2000
 	var ikeys []int32
@@ -492,7 +496,7 @@ func scFloors(c *vlib.Ctx, per int) {
 		}
 		c.Floor(name, min, c.Counter(name))
 	}
-	scale := int64(per) / 160
+	scale := int64(per) / 128
 	if scale < 1 {
 		scale = 1
 	}
@@ -505,12 +509,12 @@ func scFloors(c *vlib.Ctx, per int) {
 				}
 				g("sizeclass_"+pos+"_"+d.Name+"."+op, min)
 			}
-			tabs := []int{101, 203, 407, 815, 1631}
+			tabs := []int{101, 203, 407, 815, 1631, 3263}
 			for _, t := range tabs {
 				g("sizeclass_tab"+strconv.Itoa(t)+"_"+d.Name+"."+op, scale)
 			}
 			if d.CtorCaps != nil {
-				for _, t := range []int{1000, 2001, 5000} {
+				for _, t := range []int{1000, 2001, 4003, 5000, 10001} {
 					g("sizeclass_tab"+strconv.Itoa(t)+"_"+d.Name+"."+op, 1)
 				}
 			}
